@@ -166,9 +166,10 @@ def build(tree, nfa, alphabet, start):
 class DFA(object):
     """Lazy subset construction, full-match semantics."""
 
-    def __init__(self, pattern, extra_chars=""):
+    def __init__(self, pattern, extra_chars="", tree=None):
         self.pattern = pattern
-        tree = parse(pattern)
+        if tree is None:
+            tree = parse(pattern)
         chars = set(extra_chars)
         literal_chars(tree, chars)
         self.alphabet = sorted(chars) + [OTHER]
